@@ -207,13 +207,6 @@ fn c19a_file_size_step() {
     kani::cover!(lo == 3);
     assert!(lo == 3 && last_error() == ERROR_SUCCESS, "file size differs from the content length");
     assert!(hi == if use_hi { 0 } else { 55 }, "high half of the size");
-    // a second handle is unaffected by closing the first
-    install_file(8, &data, 1);
-    assert!(SFileCloseFile(7 as HANDLE));
-    let lo8 = unsafe { SFileGetFileSize(8 as HANDLE, std::ptr::null_mut()) };
-    let lo7 = unsafe { SFileGetFileSize(7 as HANDLE, std::ptr::null_mut()) };
-    assert!(lo8 == 3, "closing one file handle invalidated another");
-    assert!(lo7 == 0xFFFF_FFFF && last_error() == ERROR_INVALID_HANDLE, "closed handle still answers");
 }
 
 // ------------------------------------------------------------------ C19.a/c archive-level steps on a fabricated archive
